@@ -402,6 +402,14 @@ fn extreme_numeral(rng: &mut Rng) -> Vec<u8> {
 }
 
 pub fn mutate(rng: &mut Rng, mut b: Vec<u8>) -> Vec<u8> {
+    // a literal of the current source (keyword, magic prefix …) spliced into the otherwise
+    // unchanged document, half of the time as the only change
+    if rng.chance(1, 4) {
+        splice_literal(rng, &mut b);
+        if rng.chance(1, 2) {
+            return b;
+        }
+    }
     for _ in 0..rng.range(1, 3) {
         let len = b.len();
         match rng.below(8) {
@@ -499,6 +507,14 @@ pub fn gen_case(rng: &mut Rng, opt: &str, _thorough: bool) -> String {
             let plain = rng.chance(1, 2);
             let r = render(rng, &doc, plain);
             case.data = mutate(rng, r.bytes);
+        }
+        "dict" => {
+            // a valid document with one literal of the current source spliced in
+            let doc = gen_doc(rng, fmt, tmax, cfg);
+            let r = render(rng, &doc, true);
+            let mut b = r.bytes;
+            dict_splice(rng, &mut b);
+            case.data = b;
         }
         "arbitrary" => {
             case.data = arbitrary(rng);
